@@ -2,6 +2,7 @@
 (* Every signal up to MaxLen over Alphabet (states = signals) with the expected outputs of the signal helpers.    *)
 (* Mode "win": windowed sum / mean / central moments for every window size; (M) the raw-moment formulas of the     *)
 (*             code equal the central moments by definition.                                                      *)
+(* Mode "winsum": windowed sum / mean only, for large values.                                                      *)
 (* Mode "pat": per-window Pearson certificate, squared Euclidean distance and BCDC^2 against every pattern.        *)
 (* Mode "width": find_width for both directions, thresholds and width bounds.                                      *)
 EXTENDS Signal, Stats, Json
@@ -34,8 +35,12 @@ WidthRec == [dir \in {"pos", "neg"} |-> [thr \in {0, 1} |-> [lo \in 1..3 |-> [hi
 WidthLemma == (Mode = "width" /\ Big) => \A dir \in {"pos", "neg"}, thr \in {0, 1} :
                  LET ws == Widths(sig, dir, thr, 1, L + 1) IN \A i \in 1..(Len(ws) - 1) : ws[i][2] < ws[i + 1][1]
 
+\* Mode "winsum": windowed sums and means only (no moments: values may be large - half-precision inputs whose running sums leave the exactly
+\* representable range of their own type)
+SumRec(w) == [k \in 1..(L - w + 1) |-> LET s == Win(sig, k - 1, w) IN [sum |-> PowSum(s, 1), mean |-> WMean(s)]]
 Emit == (Gen /\ Big) => PrintT(<<"EMIT", ToJson(
           CASE Mode = "win" -> [sig |-> sig, win |-> [w \in 1..L |-> WinRec(w)]]
+            [] Mode = "winsum" -> [sig |-> sig, win |-> [w \in 1..L |-> SumRec(w)]]
             [] Mode = "pat" -> [sig |-> sig, pat |-> PatAll]
             [] Mode = "width" -> [sig |-> sig, width |-> WidthRec])>>)
 =============================================================================
